@@ -9,8 +9,10 @@ What is enumerated (real TCPServer / ProtocolWrapper / H11Protocol / H2Protocol 
   (must stay HTTP/1.1, body delivered byte for byte) followed by a pipelined request - the body framed
   with Content-Length or with Transfer-Encoding: chunked, the framing header behind or in front of the
   upgrade headers; WebSocket upgrade (GET) followed, after the
-  handshake response, by a text frame; POST with Upgrade: websocket (must stay HTTP); unknown Upgrade
-  token; plain GET+POST and chunked POST+GET pipelines; HTTP/1.0;
+  handshake response, by a text frame; WebSocket upgrade immediately followed by one / two frames by a client
+  that does not wait for the 101 (request and frames in the same read, the cut between them, inside a frame;
+  the application answers the handshake only after the last read); POST with Upgrade: websocket (must stay
+  HTTP); unknown Upgrade token; plain GET+POST and chunked POST+GET pipelines; HTTP/1.0;
 * segmentation as *data choice points* (always fully enumerated): "2way" every split point of the whole
   byte string (so the further traffic is in the same read as the opening, starts a later read, or the
   cut falls inside the opening, between the head of an upgrade request and its body, inside the body),
@@ -24,11 +26,13 @@ What is enumerated (real TCPServer / ProtocolWrapper / H11Protocol / H2Protocol 
 
 Oracle clauses:
   selection        application scopes (type, http_version, path) differ from the reference selection rule
-  byte-loss        request body / websocket payload received by an instance != bytes the client sent
+  byte-loss        request body / websocket payload received by an instance != bytes the client sent; a WebSocket
+                   handshake answered 101 although the frames sent behind the upgrade request never reached the app
   client-parse     the independent client parser (h11, then h2 after the 101 / for the preface) failed
   response         a request did not get exactly its own response (wrong/missing/duplicated)
   split-dependence the normalised observation differs from the unsplit delivery of the same bytes
-                   (metamorphic: needs no hand-written expectation; the only clause for the not-base64 payload)
+                   (metamorphic: needs no hand-written expectation; the only clause for the not-base64 payload and,
+                   as long as the server refuses the handshake, for the frames-before-the-101 openings)
 """
 from __future__ import annotations
 
@@ -43,7 +47,8 @@ from mc.x_c01c02c13_lib import (choose_cuts, h2_script_bytes, h2c_settings_heade
 ID = "C13"
 LEVEL = "model_checking"
 TECHNIQUE = ("bounded exhaustive enumeration of connection openings (incl. h2c upgrade requests carrying a Content-Length "
-             "or chunked body) x every segmentation of the client's byte string "
+             "or chunked body, h2c / WebSocket upgrade requests with the next protocol's first bytes in the same read) "
+             "x every segmentation of the client's byte string "
              "(data choice points, fully enumerated) on the real TCPServer/ProtocolWrapper/H11/H2 code; reference "
              "selection rule + independent client parsers + metamorphic comparison with the unsplit delivery")
 RULE = ("scenario = engine x opening x segmentation mode x application pacing; one execution per split point (2way), per "
@@ -55,15 +60,19 @@ ASSUMPTIONS = [
     "environment model (fake transport/stream, virtual loop) is bound to real sockets by ./check selftest",
     "ALPN is read from a fake ssl_object; real TLS is outside",
     "each segment is handed to the server at quiescence (one network read each); mid-flight only in the gated scenarios",
-    "a WebSocket client sends frames only after the handshake response (RFC 6455 4.1), so the frame starts a later read",
+    "a WebSocket client sends frames only after the handshake response (RFC 6455 4.1), so the frame starts a later read "
+    "(openings ws, ws-tokens); the ws-early openings model the client that does not wait: there the application answers "
+    "the handshake only after the client's last read, no outcome is prescribed for a frame that precedes the handshake "
+    "response except that it is the same for every split, and that a handshake answered 101 implies the frames are delivered",
     "an h2c client may send its preface right behind the upgrade request (the property's 'same or later reads')",
     "the not-base64 HTTP2-Settings opening is judged by split-independence only",
 ]
-BOUNDS_DOC = {"quick": "every 2-way split and one-byte reads of every opening (20, 5 of them h2c upgrades with a body); "
+BOUNDS_DOC = {"quick": "every 2-way split and one-byte reads of every opening (22, 5 of them h2c upgrades with a body, 2 "
+                       "WebSocket upgrades with frames before the 101); "
                        "every 3-way split of the 3 shortest; "
-                       "gated applications with cuts at the switch point +-1: M<=1,S<=2",
+                       "gated applications with cuts at the switch point +-1: M<=1,S<=2 (not the frames-before-the-101 openings)",
               "thorough": "every 3-way split of every opening; gated: M<=2,S<=3"}
-BUDGET = {"quick": 100, "thorough": 1500}
+BUDGET = {"quick": 300, "thorough": 1500}
 
 OK = [(b"content-length", b"2")]
 
@@ -74,10 +83,13 @@ def _resp(tag: bytes, gated: bool) -> List[tuple]:
         ("send", {"type": "http.response.body", "body": tag, "more_body": False})]
 
 
-def apps(gated: bool) -> Dict[str, list]:
+def apps(gated: bool, hold: bool = False) -> Dict[str, list]:
+    """hold: the WebSocket application answers the handshake only when gate "h" is released, which the environment does
+    after the client's last read - every split of the client's bytes then meets the same application progress."""
     return {
         "http:/r1": _resp(b"r1", gated), "http:/r2": _resp(b"r2", gated),
-        "websocket": [("recv",), ("send", {"type": "websocket.accept"})] + ([("gate", "g")] if gated else []) + [
+        "websocket": [("recv",)] + ([("gate", "h")] if hold else []) + [("send", {"type": "websocket.accept"})] + (
+            [("gate", "g")] if gated else []) + [
             ("recv",), ("send", {"type": "websocket.send", "text": "pong"}), ("recv_until_disconnect",)],
     }
 
@@ -167,6 +179,16 @@ def _openings() -> Dict[str, dict]:
         o[name] = {"conn": {"carrier": "h1", "methods": [b"POST", b"GET"]},
                    "stages": [_upgrade(h2c_settings_header(None), b"POST", **kw) + h1_request(b"GET", b"/r2")],
                    "expect": exp_body}
+    # --- a WebSocket client that does not wait for the 101: the upgrade request is immediately followed by its first
+    # frame(s), in the same read, in the next one, or with the cut inside a frame.  The application answers the handshake
+    # only after the client's last read (gate "h"), so whatever the server makes of a frame that precedes its handshake
+    # response, it has to make the same of it for every split (split-dependence); and if it does accept the connection
+    # the frames it was sent must reach the application (byte-loss).
+    o["ws-early"] = {"conn": {"carrier": "ws/h1"}, "stages": [ws_h1_handshake(b"/ws") + ws_frame(OP_TEXT, b"hi")],
+                     "expect": None, "hold": True, "early": ["hi"]}
+    o["ws-early2"] = {"conn": {"carrier": "ws/h1"},
+                      "stages": [ws_tokens + ws_frame(OP_TEXT, b"hi") + ws_frame(OP_TEXT, b"x" * 130)],
+                      "expect": None, "hold": True, "early": ["hi", "x" * 130]}
     o["ws-post"] = {
         "conn": {"carrier": "h1", "methods": [b"POST", b"GET"]},
         "stages": [h1_request(b"POST", b"/r1", [(b"Upgrade", b"websocket"), (b"Connection", b"Upgrade"),
@@ -201,7 +223,8 @@ def scenarios(tier: str) -> List[Any]:
             if name in three:
                 for mode in three_way_modes(LENGTHS[name]):
                     out.append((engine, name, mode, "eager"))
-            out.append((engine, name, "switch", "gated"))
+            if not OPENINGS[name].get("hold"):  # (held openings: the release order is fixed, nothing to interleave)
+                out.append((engine, name, "switch", "gated"))
     return out
 
 
@@ -245,8 +268,11 @@ def scenario_for(params: Any, cuts: Any) -> tuple:
     sources = [("client", events)]
     if gated:
         sources.append(("app", [("release", "g")] * 3))
+    if op.get("hold"):
+        # fires once the client source has nothing left that can be delivered (bound S = 0: the reads come first)
+        sources.append(("hold", [("release", "h")]))
     sc = {"level": "conn", "conns": {0: dict(op["conn"])}, "client_factory": make_xclient,
-          "app_factory": paced_app_factory(apps(gated)), "config": {"keep_alive_timeout": 5},
+          "app_factory": paced_app_factory(apps(gated, bool(op.get("hold")))), "config": {"keep_alive_timeout": 5},
           "sources": sources, "midflight": gated, "sigs": gated}
     return engine, sc, {"n_client": len(events)}
 
@@ -305,10 +331,18 @@ def oracle(w: Any, params: Any, ctx: Any) -> List[dict]:
         out.append(V("split-dependence", f"{name}:{_diff(obs, base)}",
                      f"events={reads} split: {repr(obs)[:220]} unsplit: {repr(base)[:220]}"))
     exp = op["expect"]
-    if exp is None:
-        return out
     rec = w.conns[0]
     cl = rec.client
+    if op.get("early") is not None and [r["status"] for r in cl.h1.responses][:1] == [101]:
+        # the server took the connection as a WebSocket: the frames sent behind the upgrade request are client bytes
+        texts = [m.get("text") for i in w.instances if i.scope["type"] == "websocket" for m in i.delivered()
+                 if m["type"] == "websocket.receive"]
+        if texts != op["early"]:
+            out.append(V("byte-loss", f"{name}:accepted-without-the-early-frames",
+                         f"handshake answered 101, websocket.receive texts {[t[:8] for t in texts]!r}, client sent "
+                         f"{[t[:8] for t in op['early']]!r} behind the upgrade request"))
+    if exp is None:
+        return out
     if w.driver.pos[0] < ctx["n_client"]:
         out.append(V("byte-loss", f"{name}:client-blocked", f"the connection stopped taking client bytes after "
                                                             f"{w.driver.pos[0]} of {ctx['n_client']} reads"))
